@@ -68,7 +68,7 @@ Lemma bad_order_app l1 : forall l2,
   bad_order l1 || bad_order l2 || (existsb pos_default l1 && existsb pos_mandatory l2).
 Proof.
   induction l1 as [|a r IH]; intros l2; cbn [app bad_order existsb].
-  - now rewrite andb_false_r, orb_false_r.
+  - cbn. now rewrite orb_false_r.
   - rewrite IH, existsb_app.
     destruct (pos_default a), (existsb pos_mandatory r), (existsb pos_mandatory l2),
              (bad_order r), (bad_order l2), (existsb pos_default r); reflexivity.
@@ -113,3 +113,728 @@ Qed.
 
 Lemma body_check_row fs : body_check fs = option_map rule_exc (body_row fs).
 Proof. unfold body_check, body_row. apply first_some_map_rel. exact creation_check_row. Qed.
+
+(** ** Class checks against the rows, one by one *)
+
+Definition row (c : bool) (r : rule) : option exc := if c then Some (rule_exc r) else None.
+
+Lemma chk_define_pre_row a s :
+  chk_define_pre (s_o s) = row (capplies_at a CR_define_frozen_base_hooks s) CR_define_frozen_base_hooks.
+Proof. reflexivity. Qed.
+
+Lemma chk_eq_order_rows a s :
+  chk_eq_order (s_o s) =
+  first_some [row (capplies_at a CR_cmp_mix s) CR_cmp_mix; row (capplies_at a CR_order_no_eq s) CR_order_no_eq].
+Proof.
+  unfold chk_eq_order, eq_order, attrs_eq_order, capplies_at, row, default_eq. cbn [first_some].
+  destruct (is_mk (o_api (s_o s))), (cmp_arg (s_o s)), (o_eq (s_o s)), (order_arg (s_o s)); reflexivity.
+Qed.
+
+Lemma chk_freeze_own_row a s :
+  chk_freeze_own (s_o s) = row (capplies_at a CR_freeze_own_setattr s) CR_freeze_own_setattr.
+Proof.
+  unfold chk_freeze_own, has_own_setattr, is_frozen, capplies_at, row.
+  destruct (ad (s_o s)), (o_own_setattr (s_o s)), (frozen_arg (s_o s)), (o_base_frozen (s_o s)); reflexivity.
+Qed.
+
+Lemma chk_unannotated_row s :
+  chk_unannotated (s_o s) (eff_auto s) (s_fields s) =
+  row (capplies_at (eff_auto s) CR_unannotated s) CR_unannotated.
+Proof.
+  unfold chk_unannotated, capplies_at, row, eff_auto.
+  destruct (auto_of (s_o s)), (these (s_o s)), (unannotated (s_fields s)); reflexivity.
+Qed.
+
+Lemma chk_type_conflict_row a s :
+  chk_type_conflict (s_o s) a (s_fields s) = row (capplies_at a CR_annot_and_type s) CR_annot_and_type.
+Proof. reflexivity. Qed.
+
+Lemma transformed_spec s a :
+  transformed s a = if order_ok (given s a) then Ok (fields s a) else Err EValue.
+Proof. reflexivity. Qed.
+
+Lemma chk_order_row a s :
+  chk_order s a = row (capplies_at a CR_mandatory_after_default s) CR_mandatory_after_default.
+Proof.
+  unfold chk_order. rewrite transformed_spec, order_ok_bad. unfold capplies_at, row.
+  destruct (bad_order (given s a)); reflexivity.
+Qed.
+
+Lemma chk_str_row a s :
+  chk_str (s_o s) = row (capplies_at a CR_str_without_repr s) CR_str_without_repr.
+Proof. reflexivity. Qed.
+
+Lemma cls_hooks_live_spec s a :
+  has_cls_on_setattr (effective_cls_on_setattr (kspec s a)) = cls_hooks_live s a.
+Proof.
+  unfold effective_cls_on_setattr, cls_hooks_live. cbn [kspec k_frozen k_on_setattr k_attrs].
+  destruct (is_frozen (s_o s)); destruct (builder_os (s_o s)) as [| | |h|hs]; try reflexivity;
+    try destruct h; cbn; try reflexivity;
+    destruct (any_validator (fields s a)), (any_converter (fields s a)); reflexivity.
+Qed.
+
+Lemma in_sa_attrs_hooked s a x :
+  in_sa_attrs (effective_cls_on_setattr (kspec s a)) x = hooked s a x.
+Proof.
+  unfold in_sa_attrs, hooked. destruct (a_on_setattr x); try reflexivity. apply cls_hooks_live_spec.
+Qed.
+
+Lemma chk_hooks_own_row a s :
+  chk_hooks_own s a = row (capplies_at a CR_hooks_own_setattr s) CR_hooks_own_setattr.
+Proof.
+  unfold chk_hooks_own, sa_nonempty, has_own_setattr, capplies_at, row.
+  rewrite (existsb_ext' _ (hooked s a) _ (in_sa_attrs_hooked s a)).
+  destruct (frozen_arg (s_o s)), (existsb (hooked s a) (fields s a)), (ad (s_o s)), (o_own_setattr (s_o s));
+    reflexivity.
+Qed.
+
+Lemma chk_hash_nonbool_row a s :
+  chk_hash_nonbool (s_o s) = row (capplies_at a CR_hash_nonbool s) CR_hash_nonbool.
+Proof.
+  unfold chk_hash_nonbool, hash_local, capplies_at, row.
+  destruct (eff_hash (s_o s)); try reflexivity.
+  destruct (ad (s_o s) && dict_has_hash (s_o s)); reflexivity.
+Qed.
+
+Lemma chk_cache_hash_row a s :
+  chk_cache_hash (s_o s) = row (capplies_at a CR_cache_no_hash s) CR_cache_no_hash.
+Proof.
+  unfold chk_cache_hash, capplies_at, row, hash_generated.
+  destruct (hash_local (s_o s)), (eq_gen (s_o s)), (is_exc (s_o s)), (is_frozen (s_o s)), (o_cache (s_o s));
+    reflexivity.
+Qed.
+
+Lemma existsb_on_setattr_split l :
+  existsb (fun x => negb (os_is_none (a_on_setattr x))) l =
+  existsb (fun x => os_is_pipe (a_on_setattr x)) l || existsb (fun x => os_is_noop (a_on_setattr x)) l.
+Proof.
+  induction l as [|x r IH]; cbn; [reflexivity|]. rewrite IH.
+  destruct (a_on_setattr x); cbn;
+    destruct (existsb (fun x => os_is_pipe (a_on_setattr x)) r),
+             (existsb (fun x => os_is_noop (a_on_setattr x)) r); reflexivity.
+Qed.
+
+Lemma chk_init_script_rows a s :
+  chk_init_script s a =
+  first_some [row (capplies_at a CR_hooks_frozen s) CR_hooks_frozen;
+              row (capplies_at a CR_noop_frozen s) CR_noop_frozen].
+Proof.
+  unfold chk_init_script, make_init_script.
+  rewrite cls_hooks_live_spec. cbn [kspec k_frozen k_attrs].
+  rewrite existsb_on_setattr_split. unfold capplies_at, row. cbn [first_some].
+  destruct (is_frozen (s_o s)), (cls_hooks_live s a),
+           (existsb (fun x => os_is_pipe (a_on_setattr x)) (fields s a)),
+           (existsb (fun x => os_is_noop (a_on_setattr x)) (fields s a)); reflexivity.
+Qed.
+
+Lemma chk_cache_init_row a s :
+  chk_cache_init (s_o s) = row (capplies_at a CR_cache_no_init s) CR_cache_no_init.
+Proof.
+  unfold chk_cache_init, capplies_at, row. destruct (init_gen (s_o s)), (o_cache (s_o s)); reflexivity.
+Qed.
+
+(** Parameter-name clashes: the code tests the concatenated positional and keyword-only
+    parameter lists, the row speaks of the aliases of all init fields. *)
+Lemma nodupb_has_dup l : nodupb l = negb (has_dup l).
+Proof.
+  induction l as [|x r IH]; cbn; [reflexivity|]. rewrite IH. now destruct (mem_str x r), (has_dup r).
+Qed.
+
+Lemma has_dup_NoDup l : has_dup l = false <-> NoDup l.
+Proof.
+  induction l as [|x r IH]; cbn.
+  - split; [constructor | reflexivity].
+  - rewrite orb_false_iff, IH. split.
+    + intros [H1 H2]. constructor; [|exact H2]. intros Hin. apply mem_str_In in Hin. congruence.
+    + intros H. inversion H as [|? ? Hn Hr]; subst. split; [|exact Hr].
+      destruct (mem_str x r) eqn:E; [|reflexivity]. apply mem_str_In in E. contradiction.
+Qed.
+
+Lemma init_split_perm l :
+  Permutation (filter a_init l)
+              (filter positional l ++ filter (fun a => a_init a && a_kw_only a) l).
+Proof.
+  induction l as [|a r IH]; cbn; [constructor|].
+  unfold positional at 1. destruct (a_init a), (a_kw_only a); cbn.
+  - apply Permutation_cons_app. exact IH.
+  - constructor. exact IH.
+  - exact IH.
+  - exact IH.
+Qed.
+
+Lemma params_dup l :
+  has_dup (init_positional l ++ init_kw_only l) = has_dup (map alias_of (filter a_init l)).
+Proof.
+  unfold init_positional, init_kw_only. rewrite <- map_app.
+  assert (P : Permutation (map alias_of (filter a_init l))
+                (map alias_of (filter positional l ++ filter (fun a => a_init a && a_kw_only a) l)))
+    by (apply Permutation_map, init_split_perm).
+  destruct (has_dup (map alias_of (filter a_init l))) eqn:E1,
+           (has_dup (map alias_of (filter positional l ++ filter (fun a => a_init a && a_kw_only a) l))) eqn:E2;
+    try reflexivity.
+  - apply has_dup_NoDup in E2. apply (Permutation_NoDup (Permutation_sym P)) in E2.
+    apply has_dup_NoDup in E2. congruence.
+  - apply has_dup_NoDup in E1. apply (Permutation_NoDup P) in E1.
+    apply has_dup_NoDup in E1. congruence.
+Qed.
+
+Lemma chk_syntax_row a s : chk_syntax s a = row (capplies_at a CR_dup_alias s) CR_dup_alias.
+Proof.
+  unfold chk_syntax, capplies_at, row. rewrite nodupb_has_dup, params_dup.
+  destruct (has_dup (map alias_of (filter a_init (fields s a)))); reflexivity.
+Qed.
+
+(** ** Assembling: the cascade of checks is the first applicable row *)
+
+Ltac step_row R :=
+  match goal with
+  | |- context [capplies_at ?a R ?s] => destruct (capplies_at a R s); [try reflexivity; try discriminate|]
+  end.
+
+Ltac all_rows :=
+  step_row CR_define_frozen_base_hooks; try step_row CR_cmp_mix; try step_row CR_order_no_eq;
+  step_row CR_freeze_own_setattr; try step_row CR_unannotated; step_row CR_annot_and_type;
+  step_row CR_mandatory_after_default; step_row CR_str_without_repr; step_row CR_hooks_own_setattr;
+  step_row CR_hash_nonbool; step_row CR_cache_no_hash; step_row CR_hooks_frozen;
+  step_row CR_noop_frozen; step_row CR_cache_no_init; step_row CR_dup_alias.
+
+Lemma deco_checks_rows s :
+  first_some (deco_checks s (eff_auto s)) =
+  option_map rule_exc (first_row (deco_rules (o_api (s_o s))) s).
+Proof.
+  unfold deco_checks, chk_eq_order_deco.
+  rewrite (chk_define_pre_row (eff_auto s)), (chk_freeze_own_row (eff_auto s)), chk_unannotated_row,
+    (chk_type_conflict_row (eff_auto s)), chk_order_row, (chk_str_row (eff_auto s)), chk_hooks_own_row,
+    (chk_hash_nonbool_row (eff_auto s)), (chk_cache_hash_row (eff_auto s)), chk_init_script_rows,
+    (chk_cache_init_row (eff_auto s)), chk_syntax_row.
+  unfold first_row, capplies, deco_rules, expr_rules, row.
+  destruct (o_api (s_o s)); try rewrite (chk_eq_order_rows (eff_auto s)); unfold row;
+    cbn [find app first_some]; all_rows; reflexivity.
+Qed.
+
+Lemma expr_rows s :
+  chk_eq_order_expr (s_o s) =
+  option_map rule_exc (match o_api (s_o s) with AttrS => first_row expr_rules s | _ => None end).
+Proof.
+  unfold chk_eq_order_expr. destruct (o_api (s_o s)); try reflexivity.
+  rewrite (chk_eq_order_rows (eff_auto s)). unfold first_row, capplies, expr_rules, row.
+  cbn [find first_some]. step_row CR_cmp_mix. step_row CR_order_no_eq. reflexivity.
+Qed.
+
+(** Only the annotation test can raise [UnannotatedAttributeError]. *)
+Lemma only_unannotated_is_unannotated s a :
+  chk_unannotated (s_o s) a (s_fields s) = None ->
+  first_some (deco_checks s a) <> Some XUnannotated.
+Proof.
+  intros Hu. unfold deco_checks, chk_eq_order_deco. rewrite Hu.
+  rewrite (chk_define_pre_row a), (chk_freeze_own_row a),
+    (chk_type_conflict_row a), chk_order_row, (chk_str_row a), chk_hooks_own_row,
+    (chk_hash_nonbool_row a), (chk_cache_hash_row a), chk_init_script_rows,
+    (chk_cache_init_row a), chk_syntax_row.
+  destruct (o_api (s_o s)); try rewrite (chk_eq_order_rows a); unfold row;
+    cbn [first_some]; all_rows; discriminate.
+Qed.
+
+(** [define]'s try/except is a function of the body: collect by annotations unless a
+    [field()] lacks one. *)
+Lemma decorate_eff s : decorate s = first_some (deco_checks s (eff_auto s)).
+Proof.
+  unfold decorate, eff_auto. destruct (auto_of (s_o s)); try reflexivity.
+  destruct (negb (these (s_o s)) && unannotated (s_fields s)) eqn:U; cbn [negb].
+  - apply andb_true_iff in U as [U1 U2].
+    unfold deco_checks, chk_unannotated. rewrite U1, U2. cbn [andb first_some].
+    unfold chk_define_pre.
+    destruct (is_def (o_api (s_o s)) && o_base_frozen (s_o s) && had_on_setattr (s_o s)); [reflexivity|].
+    unfold chk_eq_order_deco, chk_eq_order.
+    destruct (o_api (s_o s)); try (destruct (eq_order (s_o s)); [|reflexivity]);
+      unfold chk_freeze_own; destruct (has_own_setattr (s_o s) && is_frozen (s_o s)); reflexivity.
+  - assert (Hn : chk_unannotated (s_o s) true (s_fields s) = None).
+    { unfold chk_unannotated. rewrite andb_true_r, U. reflexivity. }
+    pose proof (only_unannotated_is_unannotated s true Hn) as H.
+    destruct (first_some (deco_checks s true)) as [[]|]; try reflexivity. congruence.
+Qed.
+
+Lemma build_table s : build s = table s.
+Proof.
+  unfold build, table. rewrite body_check_row, expr_rows, decorate_eff, deco_checks_rows. reflexivity.
+Qed.
+
+(** ** Which rows apply: both directions *)
+
+Lemma first_some_map_none {A B} (f : A -> option B) l :
+  first_some (map f l) = None <-> forall x, In x l -> f x = None.
+Proof.
+  induction l as [|y r IH]; cbn; [split; [intros _ x [] | reflexivity]|].
+  destruct (f y) eqn:E; split; intros H.
+  - discriminate.
+  - rewrite (H y (or_introl eq_refl)) in E. discriminate.
+  - intros x [<-|Hx]; [exact E | now apply IH].
+  - apply IH. intros x Hx. apply H. now right.
+Qed.
+
+Lemma first_some_map_some {A B} (f : A -> option B) l y :
+  first_some (map f l) = Some y -> exists x, In x l /\ f x = Some y.
+Proof.
+  induction l as [|x r IH]; cbn; [discriminate|].
+  destruct (f x) eqn:E; intros H.
+  - inversion H; subst. exists x. auto.
+  - destruct (IH H) as (x' & Hin & Hx). exists x'. auto.
+Qed.
+
+Lemma body_row_none fs :
+  body_row fs = None <->
+  forall r, In r field_rules -> existsb (fapplies r) (field_objs fs) = false.
+Proof.
+  unfold body_row. rewrite first_some_map_none. unfold field_row, field_objs. split.
+  - intros H r Hr. apply existsb_false_all. intros f Hf. apply filter_In in Hf as [Hf Hp].
+    specialize (H f Hf). destruct (f_plain f); [discriminate|].
+    eapply find_none_all in H; eauto.
+  - intros H f Hf. destruct (f_plain f) eqn:P; [reflexivity|].
+    apply find_none_all. intros r Hr. specialize (H r Hr).
+    eapply existsb_false_all in H; eauto. apply filter_In. rewrite P. auto.
+Qed.
+
+Lemma body_row_some fs r :
+  body_row fs = Some r ->
+  In r field_rules /\ existsb (fapplies r) (field_objs fs) = true.
+Proof.
+  unfold body_row. intros H. apply first_some_map_some in H as (f & Hf & H).
+  unfold field_row in H. destruct (f_plain f) eqn:P; [discriminate|].
+  apply find_some in H as [Hr Ha]. split; [exact Hr|].
+  apply existsb_exists. exists f. split; [|exact Ha].
+  unfold field_objs. apply filter_In. rewrite P. auto.
+Qed.
+
+Lemma deco_rules_incl a : incl (deco_rules a) class_rules.
+Proof.
+  intros r H. destruct a; cbn in H |- *;
+    repeat (destruct H as [<-|H]; [auto 20|]); destruct H.
+Qed.
+
+Lemma expr_rules_incl : incl expr_rules class_rules.
+Proof. intros r H. cbn in H |- *. repeat (destruct H as [<-|H]; [auto 20|]). destruct H. Qed.
+
+(** The class rows reached in two portions by [@attr.s(...)] are, together, all of them. *)
+Lemma class_rows_none s :
+  (match o_api (s_o s) with AttrS => first_row expr_rules s | _ => None end = None /\
+   first_row (deco_rules (o_api (s_o s))) s = None) <->
+  first_row class_rules s = None.
+Proof.
+  unfold first_row, class_rules, deco_rules, expr_rules.
+  destruct (o_api (s_o s)); cbn [find app]; try (split; [intros [_ H]; exact H | intros H; split; [reflexivity | exact H]]).
+  destruct (capplies CR_define_frozen_base_hooks s), (capplies CR_cmp_mix s), (capplies CR_order_no_eq s);
+    split; try (intros [H1 H2]); try intros H; try discriminate; try split; auto.
+Qed.
+
+Lemma first_phase3_defined p1 c1 p2 c2 p3 c3 :
+  first_phase [(p1, c1); (p2, c2); (p3, c3)] = Defined <-> c1 = None /\ c2 = None /\ c3 = None.
+Proof.
+  cbn. destruct c1, c2, c3; split; try discriminate; try tauto;
+    intros (H1 & H2 & H3); discriminate.
+Qed.
+
+Lemma first_phase3_rejected p1 c1 p2 c2 p3 c3 p e :
+  first_phase [(p1, c1); (p2, c2); (p3, c3)] = Rejected p e ->
+  c1 = Some e \/ c2 = Some e \/ c3 = Some e.
+Proof. cbn. destruct c1, c2, c3; intros H; inversion H; subst; auto. Qed.
+
+Lemma option_map_none {A B} (f : A -> B) o : option_map f o = None <-> o = None.
+Proof. destruct o; cbn; split; congruence. Qed.
+
+Lemma table_defined s :
+  table s = Defined <-> body_row (s_fields s) = None /\ first_row class_rules s = None.
+Proof.
+  unfold table. rewrite <- class_rows_none.
+  destruct (these (s_o s)); rewrite first_phase3_defined, !option_map_none; tauto.
+Qed.
+
+Lemma applicable_nil s :
+  applicable s = [] <-> body_row (s_fields s) = None /\ first_row class_rules s = None.
+Proof.
+  unfold applicable. rewrite body_row_none. unfold first_row. rewrite find_none_all. split.
+  - intros H. apply app_eq_nil in H as [H1 H2]. split.
+    + exact (proj1 (filter_nil_all _ _) H1).
+    + exact (proj1 (filter_nil_all _ _) H2).
+  - intros [H1 H2].
+    rewrite (proj2 (filter_nil_all _ _) H1), (proj2 (filter_nil_all _ _) H2). reflexivity.
+Qed.
+
+Lemma defined_iff_no_row s : build s = Defined <-> applicable s = [].
+Proof. rewrite build_table, table_defined, applicable_nil. tauto. Qed.
+
+Lemma rejected_by_row s p e :
+  build s = Rejected p e -> exists r, In r (applicable s) /\ rule_exc r = e.
+Proof.
+  rewrite build_table. unfold table, applicable. intros H.
+  assert (Hc : option_map rule_exc (body_row (s_fields s)) = Some e \/
+               option_map rule_exc (match o_api (s_o s) with AttrS => first_row expr_rules s | _ => None end) = Some e \/
+               option_map rule_exc (first_row (deco_rules (o_api (s_o s))) s) = Some e).
+  { destruct (these (s_o s)); apply first_phase3_rejected in H; tauto. }
+  destruct Hc as [Hb | [He | Hd]].
+  - destruct (body_row (s_fields s)) as [r|] eqn:E; [|discriminate]. cbn in Hb.
+    apply body_row_some in E as [Hr Ha]. exists r. split; [|congruence].
+    apply in_or_app. left. apply filter_In. auto.
+  - destruct (o_api (s_o s)); try discriminate.
+    destruct (first_row expr_rules s) as [r|] eqn:E; [|discriminate]. cbn in He.
+    apply find_some in E as [Hr Ha]. exists r. split; [|congruence].
+    apply in_or_app. right. apply filter_In. split; [apply expr_rules_incl; exact Hr | exact Ha].
+  - destruct (first_row (deco_rules (o_api (s_o s))) s) as [r|] eqn:E; [|discriminate]. cbn in Hd.
+    apply find_some in E as [Hr Ha]. exists r. split; [|congruence].
+    apply in_or_app. right. apply filter_In. split; [eapply deco_rules_incl; exact Hr | exact Ha].
+Qed.
+
+Lemma exc_eqb_refl e : exc_eqb e e = true.
+Proof. destruct e; reflexivity. Qed.
+
+(** Outside the area of the four unlisted rows the property's postcondition holds of
+    the model's verdict. *)
+Lemma property_outside_findings s : flagged s = false -> prop_ok s (build s) = true.
+Proof.
+  intros Hf. destruct (build s) as [|p e] eqn:E; unfold prop_ok, doc_excs.
+  - apply defined_iff_no_row in E. rewrite E. reflexivity.
+  - apply rejected_by_row in E as (r & Hr & He). apply existsb_exists. exists e.
+    split; [|apply exc_eqb_refl]. rewrite <- He. apply in_map. apply filter_In. split; [exact Hr|].
+    unfold flagged in Hf. eapply existsb_false_all in Hf; eauto. now apply negb_false_iff in Hf.
+Qed.
+
+(** Conversely a verdict that violates the postcondition pins down an unlisted row. *)
+Lemma violation_needs_unlisted_row s :
+  prop_ok s (build s) = false -> exists r, In r (applicable s) /\ documented r = false.
+Proof.
+  intros H. destruct (flagged s) eqn:F.
+  - unfold flagged in F. apply existsb_exists in F as (r & Hr & Hd). exists r. split; [exact Hr|].
+    now apply negb_true_iff in Hd.
+  - rewrite (property_outside_findings s F) in H. discriminate.
+Qed.
+
+(** ** The class object is written to by the patch step only *)
+
+Definition checks_of (plan : list (option exc * list string)) : list (bstate -> step_res) :=
+  map (fun cw => check_step (fst cw) (snd cw)) plan.
+
+Lemma run_checks_stop plan rest : forall b e b',
+  run_steps (checks_of plan ++ rest) b = Stop e b' ->
+  (first_some (map fst plan) = Some e /\ b_events b' = b_events b) \/
+  (first_some (map fst plan) = None /\
+   exists b1, b_events b1 = b_events b /\ run_steps rest b1 = Stop e b').
+Proof.
+  induction plan as [|[c w] r IH]; intros b e b' H.
+  - right. split; [reflexivity|]. exists b. auto.
+  - cbn in H |- *. unfold check_step in H at 1. cbn [fst snd] in H. destruct c as [e0|].
+    + inversion H; subst. left. auto.
+    + apply IH in H. cbn [b_events] in H. exact H.
+Qed.
+
+Lemma run_checks_go plan rest : forall b b',
+  run_steps (checks_of plan ++ rest) b = Go b' ->
+  first_some (map fst plan) = None /\
+  run_steps rest (B (b_pending b ++ List.concat (map snd plan)) (b_events b)) = Go b'.
+Proof.
+  induction plan as [|[c w] r IH]; intros b b' H.
+  - cbn in H |- *. rewrite app_nil_r. destruct b. auto.
+  - cbn in H |- *. unfold check_step in H at 1. cbn [fst snd] in H. destruct c as [e0|]; [discriminate|].
+    apply IH in H as [H1 H2]. cbn [b_pending b_events] in H2. rewrite <- app_assoc in H2. auto.
+Qed.
+
+Lemma plan_checks s a : map fst (deco_plan s a) = 
+  [ chk_define_pre (s_o s); chk_eq_order_deco (s_o s); chk_freeze_own (s_o s);
+    chk_unannotated (s_o s) a (s_fields s); chk_type_conflict (s_o s) a (s_fields s);
+    chk_order s a; None; chk_str (s_o s); None; chk_hooks_own s a;
+    chk_hash_nonbool (s_o s); chk_cache_hash (s_o s);
+    chk_init_script s a; chk_cache_init (s_o s); chk_syntax s a ].
+Proof. reflexivity. Qed.
+
+Lemma plan_first_some s a : first_some (map fst (deco_plan s a)) = first_some (deco_checks s a).
+Proof.
+  rewrite plan_checks. unfold deco_checks. cbn [first_some].
+  repeat match goal with |- context [match ?c with Some x => Some x | None => _ end] =>
+    destruct c; [reflexivity|] end.
+  reflexivity.
+Qed.
+
+Lemma deco_steps_stop s a b e b' :
+  run_steps (deco_steps s a) b = Stop e b' ->
+  first_some (deco_checks s a) = Some e /\ b_events b' = b_events b.
+Proof.
+  unfold deco_steps. fold (checks_of (deco_plan s a)). intros H.
+  apply run_checks_stop in H as [[H1 H2] | [_ (b1 & _ & H)]].
+  - rewrite <- plan_first_some. auto.
+  - cbn in H. discriminate.
+Qed.
+
+Definition patched_names (s : spec) (a : bool) (b : bstate) : list event :=
+  map EvDel (on (negb (these (s_o s))) (names (own_attrs (s_o s) a (s_fields s))))
+  ++ map EvSet (b_pending b ++ List.concat (map snd (deco_plan s a))).
+
+Lemma deco_steps_go s a b b' :
+  run_steps (deco_steps s a) b = Go b' ->
+  first_some (deco_checks s a) = None /\
+  b_events b' = if slots (s_o s) then b_events b else b_events b ++ patched_names s a b.
+Proof.
+  unfold deco_steps. fold (checks_of (deco_plan s a)). intros H.
+  apply run_checks_go in H as [H1 H2]. rewrite <- plan_first_some. split; [exact H1|].
+  cbn in H2. inversion H2; subst. cbn [b_events]. reflexivity.
+Qed.
+
+Lemma patched_names_nonempty s a b : patched_names s a b <> [].
+Proof.
+  unfold patched_names. intros H. apply app_eq_nil in H as [_ H].
+  apply map_eq_nil in H. apply app_eq_nil in H as [_ H]. cbn in H. discriminate.
+Qed.
+
+(** The whole decorator application, including [define]'s second attempt. *)
+Lemma decorate_run_stop s b e b' :
+  decorate_run s b = Stop e b' -> decorate s = Some e /\ b_events b' = b_events b.
+Proof.
+  unfold decorate_run, decorate. destruct (auto_of (s_o s)).
+  - apply deco_steps_stop.
+  - apply deco_steps_stop.
+  - destruct (run_steps (deco_steps s true) b) as [b1|e1 b1] eqn:R1; [discriminate|].
+    apply deco_steps_stop in R1 as [R1 Ev1]. rewrite R1.
+    destruct e1; intros H; try (inversion H; subst; auto; fail).
+    apply deco_steps_stop in H as [H1 H2]. split; [exact H1 | congruence].
+Qed.
+
+Lemma decorate_run_go s b b' :
+  decorate_run s b = Go b' ->
+  decorate s = None /\
+  (if slots (s_o s) then b_events b' = b_events b
+   else exists l, l <> [] /\ b_events b' = b_events b ++ l).
+Proof.
+  assert (G : forall a b0 b1, run_steps (deco_steps s a) b0 = Go b1 ->
+            first_some (deco_checks s a) = None /\
+            (if slots (s_o s) then b_events b1 = b_events b0
+             else exists l, l <> [] /\ b_events b1 = b_events b0 ++ l)).
+  { intros a b0 b1 H. apply deco_steps_go in H as [H1 H2]. split; [exact H1|].
+    destruct (slots (s_o s)); [exact H2|]. eexists. split; [|exact H2]. apply patched_names_nonempty. }
+  unfold decorate_run, decorate. destruct (auto_of (s_o s)).
+  - apply G.
+  - apply G.
+  - destruct (run_steps (deco_steps s true) b) as [b1|e1 b1] eqn:R1.
+    + intros H. inversion H; subst. apply G in R1 as [R1 R2]. rewrite R1. auto.
+    + apply deco_steps_stop in R1 as [R1 Ev1]. rewrite R1.
+      destruct e1; try discriminate. intros H. apply G in H as [H1 H2]. split; [exact H1|].
+      rewrite Ev1 in H2. exact H2.
+Qed.
+
+Lemma build_deco_rejected s e : build s = Rejected PDeco e -> decorate s = Some e.
+Proof.
+  unfold build. destruct (these (s_o s)); cbn;
+    destruct (body_check (s_fields s)), (chk_eq_order_expr (s_o s)), (decorate s);
+    intros H; inversion H; reflexivity.
+Qed.
+
+Lemma build_defined_deco s : build s = Defined -> decorate s = None.
+Proof.
+  unfold build. destruct (these (s_o s)); rewrite first_phase3_defined; tauto.
+Qed.
+
+Lemma failed_build_no_mutation_l s p e : build s = Rejected p e -> mutation_events s = [].
+Proof.
+  intros H. unfold mutation_events. rewrite H. destruct p; try reflexivity.
+  apply build_deco_rejected in H.
+  destruct (decorate_run s fresh) as [b|e' b] eqn:R.
+  - apply decorate_run_go in R as [R _]. congruence.
+  - apply decorate_run_stop in R as [_ R]. exact R.
+Qed.
+
+(** A successful definition patches a dict class and leaves the original of a
+    slotted class alone (a new class is created). *)
+Lemma defined_patches_iff_dict s :
+  build s = Defined -> (mutation_events s = [] <-> slots (s_o s) = true).
+Proof.
+  intros H. unfold mutation_events. rewrite H. apply build_defined_deco in H.
+  destruct (decorate_run s fresh) as [b|e' b] eqn:R.
+  - apply decorate_run_go in R as [_ R]. destruct (slots (s_o s)).
+    + cbn in R. tauto.
+    + destruct R as (l & Hl & R). cbn in R. rewrite R. split; [intros; contradiction | discriminate].
+  - apply decorate_run_stop in R as [R _]. congruence.
+Qed.
+
+(** Every prefix of the builder's steps before the patch leaves the class alone:
+    the statement "all validation happens before the class is patched". *)
+Lemma no_write_before_patch s a n b b' :
+  run_steps (firstn n (checks_of (deco_plan s a))) b = Go b' -> b_events b' = b_events b.
+Proof.
+  revert b b'. generalize (deco_plan s a). intros plan. revert n.
+  induction plan as [|[c w] r IH]; intros n b b' H.
+  - destruct n; cbn in H; inversion H; reflexivity.
+  - destruct n as [|n]; cbn in H; [inversion H; reflexivity|].
+    unfold check_step in H at 1. cbn [fst snd] in H. destruct c; [discriminate|].
+    apply IH in H. exact H.
+Qed.
+
+(** ** Witnesses: the unlisted rows are reachable (the full statement "the verdict
+    always satisfies the property's postcondition" is false of the faithful model),
+    and every listed row fires on some specification. *)
+
+Definition opts (a : api) : copts :=
+  CO a None None None None tN false false tN tN None HN HN false tN tN false COsNone None
+     false false false false false false false false.
+
+Definition fld (n : string) : fspec :=
+  F n false DNothing FaNone false true false false false HN sN sN sN OsNone None false false.
+
+Definition with_default (f : fspec) : fspec :=
+  F (f_name f) false DValue FaNone false true false false false HN sN sN sN (f_os f) None false false.
+
+Definition one_class (o : copts) (fs : list fspec) : spec := SP o fs [] [].
+
+(** K8: [_x] and [x] *)
+Definition k8_spec : spec := one_class (opts AttrS) [fld "_x"; fld "x"].
+
+(** K10: [str=True, repr=False]; [factory=7] *)
+Definition k10a_spec : spec :=
+  one_class (CO AttrS None None None None tN false false tN tN None HN HN false tN tF true COsNone None
+                false false false false false false false false) [fld "x"].
+Definition k10b_spec : spec :=
+  one_class (opts AttrS)
+    [F "x" false DNothing FaBad false true false false false HN sN sN sN OsNone None false false].
+
+(** K15.1: frozen class, field with [on_setattr=NO_OP] *)
+Definition k151_spec : spec :=
+  one_class (CO AttrS None (Some true) None None tN false false tN tN None HN HN false tN tN false COsNone None
+                false false false false false false false false)
+    [F "x" false DNothing FaNone false true false false false HN sN sN sN OsNoOp None false false].
+
+Lemma property_refuted_l :
+  build k8_spec = Rejected PDeco XSyntax /\ prop_ok k8_spec (build k8_spec) = false /\
+  build k10a_spec = Rejected PDeco XValue /\ prop_ok k10a_spec (build k10a_spec) = false /\
+  build k10b_spec = Rejected PBody XValue /\ prop_ok k10b_spec (build k10b_spec) = false /\
+  build k151_spec = Rejected PDeco XValue /\ prop_ok k151_spec (build k151_spec) = false.
+Proof. vm_compute. repeat split. Qed.
+
+(** Non-vacuity of the mutation theorem: a rejected dict-class decoration whose
+    builder had accumulated writes, and a successful one that patches. *)
+Definition late_reject_spec : spec :=
+  one_class (CO AttrS None None None None tN false false tN tN None HN HN true tN tN false COsNone None
+                false false false false false false false false) [fld "x"].
+
+Lemma late_reject_l :
+  build late_reject_spec = Rejected PDeco XType /\
+  (exists b, decorate_run late_reject_spec fresh = Stop XType b /\ b_pending b <> [] /\ b_events b = []) /\
+  mutation_events late_reject_spec = [] /\
+  mutation_events (one_class (opts AttrS) [fld "x"]) <> [].
+Proof.
+  split; [vm_compute; reflexivity|]. split.
+  - eexists. split; [vm_compute; reflexivity|]. split; [discriminate | reflexivity].
+  - split; [vm_compute; reflexivity | vm_compute; discriminate].
+Qed.
+
+(** A builder that ran the [cache_hash]/[init] test after the patch would fail this:
+    the theorem is about the order of the steps, not about the vocabulary. *)
+Definition late_steps (s : spec) (a : bool) : list (bstate -> step_res) :=
+  checks_of (firstn 13 (deco_plan s a))
+  ++ [patch_step (slots (s_o s)) []; check_step (chk_cache_init (s_o s)) []].
+
+Definition late_init_spec : spec :=
+  one_class (CO AttrS None None None None tN false false tN tN None HN HT true tF tN false COsNone None
+                false false false false false false false false) [fld "x"].
+
+Lemma check_after_patch_would_mutate :
+  exists e b, run_steps (late_steps late_init_spec false) fresh = Stop e b /\ b_events b <> [].
+Proof. eexists. eexists. split; [vm_compute; reflexivity | discriminate]. Qed.
+
+(** Every row of the table is reachable. *)
+Definition reach (r : rule) : spec :=
+  let o := opts AttrS in
+  let f := fld "x" in
+  match r with
+  | FR_cmp_mix => one_class o [F "x" false DNothing FaNone false true false false false HN sT sT sN OsNone None false false]
+  | FR_order_no_eq => one_class o [F "x" false DNothing FaNone false true false false false HN sN sF sK OsNone None false false]
+  | FR_hash_nonbool => one_class o [F "x" false DNothing FaNone false true false false false HX sN sN sN OsNone None false false]
+  | FR_default_and_factory => one_class o [F "x" false DValue FaCallable false true false false false HN sN sN sN OsNone None false false]
+  | FR_factory_not_callable => k10b_spec
+  | FR_second_default => one_class o [F "x" false DValue FaNone true true false false false HN sN sN sN OsNone None false false]
+  | CR_define_frozen_base_hooks =>
+      one_class (CO Define None None None None tN false false tN tN None HN HN false tN tN false (COsSingle HValidate) None
+                    false false false false false false true false) []
+  | CR_cmp_mix => one_class (CO AttrS None None None None tN false false tT tT None HN HN false tN tN false COsNone None
+                               false false false false false false false false) []
+  | CR_order_no_eq => one_class (CO AttrS None None None None tN false false tN tF (Some tT) HN HN false tN tN false COsNone None
+                               false false false false false false false false) []
+  | CR_freeze_own_setattr => one_class (CO Frozen None None None None tN false false tN tN None HN HN false tN tN false COsNone None
+                               true false false false false false false false) []
+  | CR_unannotated => one_class (CO AttrS None None None None tT false false tN tN None HN HN false tN tN false COsNone None
+                               false false false false false false false false) [f]
+  | CR_annot_and_type => one_class o [F "x" false DNothing FaNone false true false true true HN sN sN sN OsNone None false false]
+  | CR_mandatory_after_default => one_class o [with_default (fld "d"); f]
+  | CR_str_without_repr => k10a_spec
+  | CR_hooks_own_setattr =>
+      one_class (CO AttrS None None (Some true) None tN false false tN tN None HN HN false tN tN false COsNone None
+                    true false false false false false false false)
+        [F "x" false DNothing FaNone false true false false false HN sN sN sN (OsPipe [HValidate]) None false false]
+  | CR_hash_nonbool => one_class (CO AttrS None None None None tN false false tN tN None HX HN false tN tN false COsNone None
+                               false false false false false false false false) []
+  | CR_cache_no_hash => late_reject_spec
+  | CR_hooks_frozen =>
+      one_class (CO AttrS None None None None tN false false tN tN None HN HN false tN tN false COsNone None
+                    false false false false false false true false)
+        [F "x" false DNothing FaNone false true false false false HN sN sN sN (OsPipe [HValidate]) None false false]
+  | CR_noop_frozen => k151_spec
+  | CR_cache_no_init => late_init_spec
+  | CR_dup_alias => k8_spec
+  end.
+
+Definition all_rules : list rule := field_rules ++ class_rules.
+
+Lemma every_row_reachable_l :
+  forall r, In r all_rules ->
+    applicable (reach r) = [r] /\
+    exists p, build (reach r) = Rejected p (rule_exc r).
+Proof.
+  intros r H. cbn in H.
+  repeat (destruct H as [<-|H]; [split; [vm_compute; reflexivity | eexists; vm_compute; reflexivity]|]).
+  destruct H.
+Qed.
+
+(** ** Further consequences *)
+
+(** [define(auto_attribs=None)] never raises [UnannotatedAttributeError]. *)
+Lemma define_infers_l s p :
+  auto_of (s_o s) = AutoInfer -> build s <> Rejected p XUnannotated.
+Proof.
+  intros Ha H. apply rejected_by_row in H as (r & Hr & He).
+  unfold applicable in Hr. apply in_app_or in Hr as [Hr|Hr]; apply filter_In in Hr as [Hr Hc].
+  - cbn in Hr. repeat (destruct Hr as [<-|Hr]; [discriminate|]). destruct Hr.
+  - cbn in Hr. repeat (destruct Hr as [<-|Hr]; [try discriminate|]); try destruct Hr.
+    unfold capplies, capplies_at in Hc. rewrite Ha in Hc. rewrite andb_false_r in Hc. discriminate.
+Qed.
+
+(** With class-level [kw_only=True] (and no transformer) no field order is rejected. *)
+Lemma evolve_kw_true_positional l : existsb positional (evolve_kw_only true l) = false.
+Proof.
+  unfold evolve_kw_only. induction l as [|a r IH]; cbn; [reflexivity|].
+  rewrite IH. unfold positional. cbn. now rewrite andb_false_r.
+Qed.
+
+Lemma bad_order_needs_positional l : existsb positional l = false -> bad_order l = false.
+Proof.
+  induction l as [|a r IH]; cbn; [reflexivity|]. intros H. apply orb_false_iff in H as [H1 H2].
+  unfold pos_default. rewrite H1, (IH H2). reflexivity.
+Qed.
+
+Lemma kw_only_class_any_order_l s a :
+  o_kw (s_o s) = true -> o_ft (s_o s) = None -> chk_order s a = None.
+Proof.
+  intros Hk Hf. rewrite chk_order_row. unfold capplies_at, row, given, ft_fun. rewrite Hk, Hf. cbn [option_map apply_ft].
+  rewrite bad_order_needs_positional; [reflexivity|].
+  rewrite existsb_app, !evolve_kw_true_positional. reflexivity.
+Qed.
+
+Lemma order_rule_characterised_l l :
+  order_ok l = false <->
+  exists i j a b, i < j /\ nth_error l i = Some a /\ nth_error l j = Some b /\
+                  pos_default a = true /\ pos_mandatory b = true.
+Proof. rewrite order_ok_bad, negb_false_iff. apply bad_order_pair. Qed.
+
+Lemma frozen_hooks_rows_l s a :
+  make_init_script (kspec s a) = GenValueError <->
+  capplies_at a CR_hooks_frozen s = true \/ capplies_at a CR_noop_frozen s = true.
+Proof.
+  pose proof (chk_init_script_rows a s) as H. unfold chk_init_script, row in H.
+  cbn [first_some] in H.
+  destruct (make_init_script (kspec s a)), (capplies_at a CR_hooks_frozen s),
+           (capplies_at a CR_noop_frozen s); split; intros X; try discriminate; auto;
+    destruct X; discriminate.
+Qed.
